@@ -210,6 +210,34 @@ pub fn gen_instance(rng: &mut Rng, prefix: &str) -> Inst {
     }
 }
 
+/// An instance whose program is an author-written corpus entry (snippet or example with its modules).
+pub fn corpus_instance(rng: &mut Rng, k: usize) -> Inst {
+    let c = crate::corpus::corpus();
+    let total = c.snippets.len() + c.examples.len();
+    let k = k % total.max(1);
+    let e = if k < c.snippets.len() { &c.snippets[k] } else { &c.examples[k - c.snippets.len()] };
+    let mut case = e.to_case();
+    if case.module_path.is_none() && !e.src.contains("import ") && rng.chance(0.3) {
+        case.module_path = Some("/m/c.ts".into());
+    }
+    let followup = if rng.chance(0.4) { Some(c.snippets[rng.below(c.snippets.len())].to_case()) } else { None };
+    let gc = match rng.below(4) {
+        0 => GcSched::off(),
+        1 => GcSched::threshold(*rng.pick(&[1u32, 2, 3, 7, 100])),
+        2 => GcSched { force_step_pm: *rng.pick(&[50u32, 300]), force_seed: rng.next_u64(), ..GcSched::threshold(100) },
+        _ => GcSched { force_at_suspend: true, ..GcSched::threshold(3) },
+    };
+    Inst {
+        case,
+        tape: Tape::random(rng, 16),
+        gc,
+        driver: if rng.chance(0.8) { Driver::Step } else { Driver::Eval },
+        clock_start: 1_600_000_000_000 + rng.below(1_000_000) as i64,
+        random_seed: rng.next_u64(),
+        followup,
+    }
+}
+
 enum Cmd {
     Advance,
     Finish,
@@ -238,6 +266,25 @@ impl Check for C12 {
     fn generate(&self, rng: &mut Rng, _idx: usize, _tier: Tier) -> Scn {
         let k = 2 + rng.below(3);
         let instances = (0..k).map(|i| gen_instance(rng, ["v", "u", "w", "x"][i])).collect();
+        let mode = match rng.below(10) {
+            0..=5 => Mode::Interleave,
+            6..=7 => Mode::PriorLifetimes,
+            _ => Mode::Threads,
+        };
+        Scn { instances, mode, sched: Tape::random(rng, 400), fuel: 500_000, process_restart: None }
+    }
+
+    fn generate_stream(&self, stream: &str, rng: &mut Rng, idx: usize, tier: Tier) -> Scn {
+        if stream != "corpus" {
+            return self.generate(rng, idx, tier);
+        }
+        // instance 0 walks the corpus in order, the others are random corpus entries or generated programs
+        let k = 2 + rng.below(2);
+        let mut instances = vec![corpus_instance(rng, idx)];
+        for i in 1..k {
+            let pickk = rng.below(1 << 20);
+            instances.push(if rng.chance(0.7) { corpus_instance(rng, pickk) } else { gen_instance(rng, ["v", "u", "w", "x"][i]) });
+        }
         let mode = match rng.below(10) {
             0..=5 => Mode::Interleave,
             6..=7 => Mode::PriorLifetimes,
@@ -525,7 +572,8 @@ pub fn worker(seed: u64, n: usize, start: usize) {
     let sid = crate::rng::stream_id("C12/process");
     for i in start..start + n {
         let mut r = Rng::new(crate::rng::derive(seed, sid, i as u64));
-        let inst = gen_instance(&mut r, "v");
+        // every third seed index runs an author-written corpus program instead of a generated one
+        let inst = if i % 3 == 2 { corpus_instance(&mut r, i / 3) } else { gen_instance(&mut r, "v") };
         let (t, _) = solo_trace(&inst, 500_000);
         println!("{} {:016x}", i, hash_str(&t));
     }
